@@ -3,7 +3,7 @@ import families, report, common_parse as cp
 def run(tier, seed):
     E = families.g_err(); EN = {g.name: g for g in E}
     R = report.Run('C08', tier, seed); cases = []
-    if tier == 'quick': plain = [(EN['er1'], [2, 3]), (EN['er2'], [2]), (EN['er3'], [2]), (EN['er4'], [2])]; verb = [(EN['er1'], [2])]
+    if tier == 'quick': plain = [(EN['er1'], [2, 3]), (EN['er2'], [2]), (EN['er3'], [2]), (EN['er4'], [2]), (EN['er5'], [2])]; verb = [(EN['er1'], [2])]
     else: plain = [(g, [1, 2, 3, 4, 5]) for g in E]; verb = [(g, [1, 2, 3]) for g in E]
     assume = cp.STD_ASSUME + ['README algorithm read as: the error token is presented to the current state first; states are popped only while the top state has no action on it; '
                               'a reduce on the error token is an action']
